@@ -550,9 +550,10 @@ def run(ctx) -> None:
                                  (_is_finish_call(c) and _state_arg(c) in ("FAILED_STATE", "SHUTDOWN_STATE", "FINISHED_STATE")))
     restart_tests = match.test_nodes(cfg, lambda e: "T" if (
         isinstance(e, ast.Compare) and isinstance(e.ops[0], ast.Eq) and
-        any(isinstance(x, ast.Call) and last_attr(x) == "_restartComponent" for x in (e.left, e.comparators[0])) and
+        any(isinstance(x, ast.Call) and last_attr(x) == "_restartComponent"
+            for x in (match.resolve_local(pm, e.left), match.resolve_local(pm, e.comparators[0]))) and
         any(isinstance(x, ast.Subscript) and isinstance(x.slice, ast.Constant) and x.slice.value == "RestartInitiated"
-            for x in (e.left, e.comparators[0]))) else None)
+            for x in (match.resolve_local(pm, e.left), match.resolve_local(pm, e.comparators[0])))) else None)
     ctx.require(bool(finals) and bool(restart_tests), "anchor missing: restart test / final-state calls in postMortemCheck")
     r = cfg.reach([cfg.entry], blocked=finals, blocked_edges={(n.id, "T") for n, _ in restart_tests})
     ok = cfg.exit.id not in r and cfg.xexit.id not in r
@@ -578,7 +579,10 @@ def run(ctx) -> None:
         ok = cfg.exit.id not in rr
         ctx.ob("C02.R2-postmortem-total", tn.ast, ok,
                "a refused restart leads to TransitionComponentToFinalState" if ok else
-               "a refused restart does not lead to TransitionComponentToFinalState")
+               "a refused restart does not always lead to TransitionComponentToFinalState: on some path the final state is chosen by another "
+               "rule (e.g. finish(FAILED) once the restart budget is used up), so an exit reason on the component's shutdown list gives FAILED "
+               "instead of shut-down and the stage is reported as failed",
+               construct="refused restart -> TransitionComponentToFinalState")
 
     # ------------------------------------------------ R3
     fc = ctl.func("Controller.finishedCheck")
